@@ -1,10 +1,35 @@
 ------------------------------ MODULE Conf_AES ------------------------------
+(***************************************************************************)
+(* Conformance trace specification for the AES family: block events via    *)
+(* ConfBase (C02) plus the hazmat round functions (C17).                   *)
+(***************************************************************************)
 EXTENDS AES, Json, IOUtils
-VARIABLES l, inst
+VARIABLES tpos, inst
 Rec == ndJsonDeserialize(IOEnv.TRACE)
 OSched(t, k, x) == AESSched(t, k, x)
 OEnc(ks, b) == AESEnc(ks, b)
 ODec(ks, b) == AESDec(ks, b)
-ExtraKinds == {}
+ExtraKinds == {"haz"}
 INSTANCE ConfBase
+
+HazFn(f, b, k) ==
+    CASE f \in {"round", "round_par"} -> CipherRound(b, k)
+      [] f \in {"inv_round", "inv_round_par"} -> EquivInvCipherRound(b, k)
+      [] f = "mix" -> MixColumns(b)
+      [] f = "inv_mix" -> InvMixColumns(b)
+
+\* the 8-block parallel forms are eight independent single calls with the respective keys
+Haz ==
+    /\ IsEvent("haz")
+    /\ LET e == Rec[tpos]
+           n == Len(e.blocks)
+       IN /\ e.outcome = "ok"
+          /\ e.fn \in {"round", "round_par", "inv_round", "inv_round_par", "mix", "inv_mix"}
+          /\ n = (IF e.fn \in {"round_par", "inv_round_par"} THEN 8 ELSE 1)
+          /\ Len(e.keys) = n /\ Len(e.out) = n
+          /\ \A j \in 1..n : e.out[j] = HazFn(e.fn, e.blocks[j], e.keys[j])
+    /\ UNCHANGED inst
+
+XNext == Next \/ Haz
+XSpec == Init /\ [][XNext]_vars
 =============================================================================
